@@ -769,8 +769,17 @@ def do_replay(prop, path):
             import witness as wmod
             r = wmod.rerun(w)
             print(r["output"])
-            print("witness " + ("REPRODUCED" if r["reproduced"] else "did not reproduce"))
-            return 1 if r["reproduced"] else 0
+            if w.get("kind") == "listops":
+                again = r["reproduced"]
+            else:
+                # the recorded input has been re-run above (its output is shown); whether it still MISBEHAVES is judged the way it was
+                # found: the property's scenarios are evaluated again on the real crate and must flag the same input
+                now = wmod.find(prop, None, "quick")
+                again = bool(now.get("found")) and now.get("input") == w.get("input")
+                if now.get("found") and not again:
+                    print("the recorded input behaves correctly now; a DIFFERENT scenario misbehaves: " + str(now.get("what"))[:300])
+            print("witness " + ("REPRODUCED" if again else "did not reproduce on the current tree"))
+            return 1 if again else 0
         except Exception as e:
             print("witness re-run failed:", e)
             return 2
